@@ -19,6 +19,7 @@ import time
 from dtsim import core, render
 from dtsim.core import EXIT_HARNESS, EXIT_OK, EXIT_VIOLATION, Chooser, HarnessError
 
+COMPACT_W = float(os.environ.get("DTSIM_COMPACT_W", "1"))
 PRELUDE = "from typing import *\nimport typing\nimport os\n"
 
 
@@ -71,7 +72,7 @@ def gen_fn_job(ch, jid, label, allow_stale_docs=False):
         documented = ch.shuffle(label + ".docshuf", names)
     if mode == "some" and ch.chance(label + ".someshuf", 0.4):
         documented = ch.shuffle(label + ".docshuf2", documented)
-    style = ch.weighted(label + ".style", [("rest", 3), ("google", 1), ("numpydoc", 1)])
+    style = ch.weighted(label + ".style", [("rest", 3), ("google", 1), ("numpydoc", 1), ("rest_compact", COMPACT_W)])
     inline = ch.chance(label + ".inline", 0.6)
     kwonly = ch.chance(label + ".kwonly", 0.3)
     if kwonly and ch.chance(label + ".kwshuffle", 0.6):
